@@ -73,20 +73,16 @@ def isAbs (p : Bytes) : Bool := p.head? = some 47
 /-- `filepathext.SmartJoin` -/
 def smartJoin (a b : Bytes) : Bytes := if isAbs b then b else join a b
 
-/-- `filepathext.IsExtOnly` -/
-def isExtOnly (p : Bytes) : Bool := base p = ext p
+/-- `filepathext.IsExtOnly`: a name that consists of an extension only (`.yaml`, `sub/.yml`).
+The directory names `.` and `..` are not extensions (`Base "." = Ext "." = "."`: the slip
+`task --init .` → `./Taskfile.` of the first version of this function). -/
+def isExtOnly (p : Bytes) : Bool := base p ≠ [46] ∧ base p ≠ dotdot ∧ base p = ext p
+
+/-- the predicate before the repair, kept for the machine-checked witness -/
+def isExtOnlyOld (p : Bytes) : Bool := base p = ext p
 
 def taskfileStem : Bytes := [84, 97, 115, 107, 102, 105, 108, 101]               -- Taskfile
 def defaultTaskfile : Bytes := taskfileStem ++ [46, 121, 109, 108]               -- Taskfile.yml
-
-/-- The path `cmd/task` hands to `InitTaskfile`: the working directory, or the first
-positional argument (an extension-only name `.ext` means `Taskfile.ext`) joined to it. -/
-def initArgPath (wd : Bytes) (positional : List Bytes) : Bytes :=
-  match positional with
-  | [] => wd
-  | name :: _ =>
-    let name := if isExtOnly name then smartJoin (dir name) (taskfileStem ++ ext name) else name
-    smartJoin wd name
 
 inductive Kind where | file | dir
 deriving DecidableEq, Repr
@@ -94,6 +90,18 @@ deriving DecidableEq, Repr
 abbrev FS := List (Bytes × Kind)
 
 def stat (fs : FS) (p : Bytes) : Option Kind := (fs.find? (fun e => e.1 = clean p)).map (·.2)
+
+/-- The path `cmd/task` hands to `InitTaskfile`: the working directory, or the first
+positional argument joined to it.  An argument that names an existing directory is that
+directory whatever it looks like (`.config`); otherwise an extension-only name `.ext`
+means `Taskfile.ext` beside it. -/
+def initArgPath (fs : FS) (wd : Bytes) (positional : List Bytes) : Bytes :=
+  match positional with
+  | [] => wd
+  | name :: _ =>
+    let isDir : Bool := stat fs (smartJoin wd name) = some .dir
+    let name := if !isDir && isExtOnly name then smartJoin (dir name) (taskfileStem ++ ext name) else name
+    smartJoin wd name
 
 inductive InitResult where
   | written (p : Bytes)     -- exit 0, default Taskfile created at `p` (the path given to `os.WriteFile`)
@@ -117,7 +125,7 @@ def initTaskfile (fs : FS) (path : Bytes) : InitResult :=
 /-- `task --init` with the given positional arguments (those before `--`). -/
 def initRun (fs : FS) (wd : Bytes) (argv : List Bytes) (dash : Option Nat) : InitResult :=
   match argsGet argv dash with
-  | .ok (positional, _) => initTaskfile fs (initArgPath wd positional)
+  | .ok (positional, _) => initTaskfile fs (initArgPath fs wd positional)
   | .error _ => .error
 
 /-- the file system afterwards -/
